@@ -201,8 +201,43 @@ def spectra_batching(ctx, n, periods, xi, dt, pkind='ndarray'):
         ctx.claim(k + '_of_each_period_independent_of_batch', S.sym_and(*ok[k]))
 
 
+def object_level(ctx, n, periods, dt, mdr=4):
+    """AccSignal spectra rely on refinement invariance (the record is interpolated to a finer step before integration).
+    When the step rule max(T_min/20, dt/min_dt_ratio) is NOT below dt nothing may be interpolated - and certainly nothing
+    dropped: s_d/s_v/s_a are then exactly the array-level spectra of the raw samples (identical terms).  When it is below dt,
+    the object's values are the array-level spectra of the record refined by the integer factor ceil(dt/target)."""
+    import math
+    lib = ctx.lib
+    a = ctx.arr('a', n, -100.0, 100.0)
+    al = list(a)
+    parr = ctx.np.array([float(p) for p in periods])
+    asig = lib.AccSignal(a, dt, response_times=parr)
+    asig.gen_response_spectrum(min_dt_ratio=mdr)
+    tmin = [float(p) for p in periods if float(p) != 0][0]
+    target = max(tmin / 20, dt / mdr)
+    if target < dt:
+        r = int(math.ceil(dt / target - 1e-9))
+        ref = []
+        for i in range(n):
+            for j in range(r):
+                nxt = al[i + 1] if i + 1 < n else al[i]
+                ref.append(al[i] + (nxt - al[i]) * (j / float(r)))
+        want = lib.sdof.pseudo_response_spectra(ctx.np.array(ref), dt / r, parr, 0.05)
+    else:
+        want = lib.sdof.pseudo_response_spectra(a, dt, parr, 0.05)
+    got = (asig.s_d, asig.s_v, asig.s_a)
+    ctx.observe('s_d', got[0])
+    ok = []
+    for s_ in range(3):
+        ok.append(len(got[s_]) == len(periods))
+        for p in range(min(len(got[s_]), len(periods))):
+            ok.append(ctx.eq(got[s_][p], want[s_][p], 1e6, rtol=1e-9))
+    ctx.claim('object_spectra_are_spectra_of_the_record_refined_by_an_integer_factor_or_left_alone', S.sym_and(*ok),
+              (target, dt))
+
+
 SCENARIOS = {'linearity': linearity, 'spectra_scaling': spectra_scaling, 'causality': causality, 'shift': shift,
-             'period_batching': period_batching, 'spectra_batching': spectra_batching, 'refinement': refinement}
+             'period_batching': period_batching, 'spectra_batching': spectra_batching, 'object_level': object_level, 'refinement': refinement}
 SELFTEST_PER_SCENARIO = 2
 
 
@@ -229,3 +264,6 @@ def obligations(tier, seed):
         for pk in kinds:
             for xi in ((0.05,) if q else (0, 0.05, 0.5)):
                 yield Ob('spectra_batching', {'n': 3 if q else 5, 'periods': pl, 'xi': xi, 'dt': dt, 'pkind': pk}, query_ms=120000)
+    for dt, pl, mdr in ((0.01, [1.0, 3.0], 4), (0.01, [0.45, 0.9], 4), (0.0025, [0.1, 0.5], 1), (0.01, [0.0, 2.0], 4), (0.01, [0.1, 0.5], 4),
+                        (0.01, [0.15, 0.5], 4), (0.02, [0.0, 0.5], 2)):
+        yield Ob('object_level', {'n': 6 if q else 9, 'periods': pl, 'dt': dt, 'mdr': mdr}, query_ms=120000, timeout_s=900)
